@@ -324,6 +324,7 @@ def run(ctx, F, rule="E-RAW"):
     check_rehash(ctx, F)
     check_len_inventory(ctx, F)
     check_len_zero_tests(ctx, F)
+    check_init_and_empty(ctx, F)
 
 
 def check_slot_clone(ctx, F, rule="E-RAW.clone"):
@@ -758,4 +759,35 @@ def check_len_zero_tests(ctx, F, rule="E-RAW.lenzero"):
                                                 ("an element count is compared with %d (expected 0)" % c) if c != 0 else
                                                 "slots are visited on the `len == 0` edge (the emptiness test is inverted): the function "
                                                 "skips its work when there are elements"))
+    return n
+
+
+def check_init_and_empty(ctx, F, rule="E-RAW.init"):
+    """A table created without slots has `len = 0` and `free = 0` (every struct literal of `RawTable` with constant
+    counters), and `is_empty()` is `len == 0`."""
+    n = 0
+    bad = []
+    for fid, m in sorted(F.mir.items()):
+        if not fid.startswith("linear_hashtbl::raw::") or "::test::" in fid:
+            continue
+        for b in m["blocks"]:
+            if b["c"]:
+                continue
+            for s in b["s"]:
+                rv = s.get("rv") or {}
+                if rv.get("k") == "aggr" and str(rv.get("adt", "")).endswith("raw::RawTable"):
+                    n += 1
+                    consts = [cfg.const_int(o) for o in rv.get("ops", [])]
+                    ints = [c for c in consts if c is not None]
+                    if any(c != 0 for c in ints):
+                        bad.append("%s (%s): a RawTable is created with constant counters %r (expected 0)" % (short(F, fid), F.where(fid), ints))
+    ie = [f for f in F.mir if f.startswith("linear_hashtbl::raw::") and f.endswith("::is_empty") and "RawTable<" in F.nice(f)]
+    for fid in ie:
+        m = F.mir[fid]
+        ok = any(s.get("lhs") == 0 and (s.get("rv") or {}).get("k") == "bin" and s["rv"].get("o") == "Eq" and cfg.const_int(s["rv"].get("b")) == 0
+                 for b in m["blocks"] for s in b["s"])
+        n += 1
+        if not ok:
+            bad.append("%s (%s): is_empty is not `len == 0`" % (short(F, fid), F.where(fid)))
+    ctx.ob(rule, rule, not bad and n >= 3, "; ".join(bad[:3]) if bad else "%d constructors / is_empty: counters start at 0, is_empty is len == 0" % n)
     return n
